@@ -118,3 +118,42 @@ Proof.
   intros <- r. pose proof (writer_faults sc (checked chunks) (checked_all chunks)) as (H1 & H2 & _ & H4).
   rewrite payloads_checked in *. repeat split; assumption.
 Qed.
+
+(* ---- a linear-time reading of run_writes for all-checked lists: the error
+   flag and the NUMBER of accepted bytes; the accepted bytes themselves are
+   that many leading bytes of the fault-free output.  Used to evaluate the
+   model on long write lists (run_writes appends to its accumulator, which is
+   quadratic). *)
+Fixpoint run_len (sc : script) (i : nat) (l : list bytes) : bool * nat :=
+  match l with
+  | [] => (false, 0)
+  | p :: r =>
+      match sc i p with
+      | WAccept => let '(e, n) := run_len sc (S i) r in (e, length p + n)
+      | WFail => (true, 0)
+      | WPartial m => (true, Nat.min m (length p))
+      end
+  end.
+
+Lemma firstn_app_exact {A} (p r : list A) n : firstn (length p + n) (p ++ r) = p ++ firstn n r.
+Proof. induction p as [|x p IH]; cbn; [reflexivity | rewrite IH; reflexivity]. Qed.
+
+Lemma firstn_min_app {A} (p r : list A) m : firstn (Nat.min m (length p)) (p ++ r) = firstn m p.
+Proof.
+  revert m; induction p as [|x p IH]; intros m; cbn.
+  - rewrite Nat.min_0_r. destruct m; reflexivity.
+  - destruct m; cbn; [reflexivity | rewrite IH; reflexivity].
+Qed.
+
+Lemma run_writes_len sc l : forall i acc,
+  run_writes sc i (checked l) acc
+  = (fst (run_len sc i l), acc ++ firstn (snd (run_len sc i l)) (concat l)).
+Proof.
+  induction l as [|p r IH]; intros i acc; cbn [checked map run_writes run_len concat].
+  - cbn. rewrite app_nil_r. reflexivity.
+  - unfold do_write. destruct (sc i p) eqn:E; cbn [andb].
+    + fold (checked r). rewrite IH. destruct (run_len sc (S i) r) as [e n]. cbn [fst snd].
+      rewrite firstn_app_exact, app_assoc. reflexivity.
+    + cbn. rewrite app_nil_r. reflexivity.
+    + cbn [fst snd]. rewrite firstn_min_app. reflexivity.
+Qed.
